@@ -885,9 +885,13 @@ pub extern "C" fn tsrun_call(
     ctx.interp.ffi_context = prev_ffi_context;
 
     match result {
-        Ok(guarded) => TsRunValueResult::ok(TsRunValue::from_runtime_value(
-            crate::RuntimeValue::from_guarded(guarded),
-        )),
+        // The handle gets a guard of its own: a native may return one of its arguments or
+        // another existing object without a guard (e.g. Object(x) returns x)
+        Ok(guarded) => {
+            let handle = TsRunValue::from_js_value(&mut ctx.interp, guarded.value.clone());
+            drop(guarded);
+            TsRunValueResult::ok(handle)
+        }
         Err(e) => TsRunValueResult::err(ctx, e.to_string()),
     }
 }
@@ -961,9 +965,13 @@ pub extern "C" fn tsrun_call_method(
     ctx.interp.ffi_context = prev_ffi_context;
 
     match result {
-        Ok(guarded) => TsRunValueResult::ok(TsRunValue::from_runtime_value(
-            crate::RuntimeValue::from_guarded(guarded),
-        )),
+        // The handle gets a guard of its own: a native may return one of its arguments or
+        // another existing object without a guard (e.g. Object(x) returns x)
+        Ok(guarded) => {
+            let handle = TsRunValue::from_js_value(&mut ctx.interp, guarded.value.clone());
+            drop(guarded);
+            TsRunValueResult::ok(handle)
+        }
         Err(e) => TsRunValueResult::err(ctx, e.to_string()),
     }
 }
